@@ -16,6 +16,7 @@ mod model;
 mod ising;
 mod steps;
 mod tape;
+mod thermal;
 
 use std::io::Write;
 
@@ -41,7 +42,7 @@ pub fn write_shards(
         let path = format!("{}/{}.v", out, name);
         let mut f = std::io::BufWriter::new(std::fs::File::create(&path).unwrap());
         writeln!(f, "From Coq Require Import List QArith ZArith NArith Bool.").unwrap();
-        writeln!(f, "From QmcV Require Import Model.Prog Model.Sse Model.Ham Model.Diagonal Model.Nav Model.Cluster Model.Tempering Model.Classical Model.Pool Model.Autocorr Check.Common Check.Table Check.{}.", module).unwrap();
+        writeln!(f, "From QmcV Require Import Model.Prog Model.Sse Model.Ham Model.Diagonal Model.Nav Model.FastOps Model.Cluster Model.Tempering Model.Classical Model.Pool Model.Autocorr Check.Common Check.Table Check.{}.", module).unwrap();
         writeln!(f, "Import ListNotations.").unwrap();
         writeln!(f, "Definition base : N := {}%N.", k * per_shard.max(1)).unwrap();
         writeln!(f, "Definition cases : list {}.case := [", module).unwrap();
@@ -107,6 +108,7 @@ fn main() {
         "c19" => c19::run(&args),
         "c18" => c18::run(&args),
         "c20" => c20::run(&args),
+        "thermal" => thermal::run(&args),
         other => {
             eprintln!("unknown command {}", other);
             std::process::exit(2);
